@@ -340,6 +340,11 @@ pub enum BOp {
 
 #[derive(Clone, Debug, Serialize, Deserialize)]
 pub struct C18Case {
+    /// other entities in the world: bit 0 = an animator WITHOUT timeline spawned before the entity
+    /// under test, bit 1 = a disabled animator spawned before it, bit 2 = a playing infinite animator
+    /// spawned after it
+    #[serde(default)]
+    pub bystanders: u8,
     pub tl: TlDesc,
     pub other: TlDesc,
     pub with_timeline: bool,
@@ -375,11 +380,12 @@ fn c18_strategy() -> impl Strategy<Value = C18Case> {
         prop::bool::weighted(0.1),
         desc::vals_strategy(),
         prop::collection::vec(op, 1..=40),
+        prop_oneof![2 => Just(0u8), 3 => 0u8..8],
     )
-        .prop_map(|(tl, other, with_timeline, start_disabled, start, ops)| C18Case { tl, other, with_timeline, start_disabled, start, ops })
+        .prop_map(|(tl, other, with_timeline, start_disabled, start, ops, bystanders)| C18Case { bystanders, tl, other, with_timeline, start_disabled, start, ops })
 }
 
-const C18_LABELS: [&str; 12] = ["reached_ended", "frame_skipped_a_phase", "zero_frame", "disabled_frames", "reset_used", "set_timeline_used", "infinite", "exact_end_decision", "near_band", "playing_evaluated", "delayed", "no_timeline_start"];
+const C18_LABELS: [&str; 13] = ["reached_ended", "frame_skipped_a_phase", "zero_frame", "disabled_frames", "reset_used", "set_timeline_used", "infinite", "exact_end_decision", "near_band", "playing_evaluated", "delayed", "no_timeline_start", "idle_bystander_first"];
 
 fn c18_judge(c: &C18Case, obs: &mut Obs) -> Result<(), String> {
     let mut app = App::new();
@@ -390,7 +396,24 @@ fn c18_judge(c: &C18Case, obs: &mut Obs) -> Result<(), String> {
     if c.start_disabled {
         animator = animator.as_disabled();
     }
+    // bystander entities: the animator under test must behave the same whatever else is in the world
+    let by_vals = A { a: 11.0, b: 12.0, c: 13, d: 14, s: 15.0, z: 16 };
+    let mut idle: Vec<Entity> = vec![];
+    if c.bystanders & 1 != 0 {
+        idle.push(app.world.spawn((by_vals.clone(), Animator::<A>::new())).id());
+    }
+    if c.bystanders & 2 != 0 {
+        idle.push(app.world.spawn((by_vals.clone(), Animator::with_timeline(build_a(&c.other)).as_disabled())).id());
+    }
     let entity = app.world.spawn((start.clone(), animator)).id();
+    let runner_up = if c.bystanders & 4 != 0 {
+        let mut t = c.tl.clone();
+        t.timing.repeat = Rep::Infinite;
+        Some(app.world.spawn((by_vals.clone(), Animator::with_timeline(build_a(&t)))).id())
+    } else {
+        None
+    };
+    obs.label_if(12, c.bystanders & 3 != 0);
     let mut w = World1::new(app, entity);
     let mut cur: Option<TlInForce> = if c.with_timeline { Some(TlInForce::new(&c.tl, None)) } else { None };
     obs.label_if(11, !c.with_timeline);
@@ -423,6 +446,20 @@ fn c18_judge(c: &C18Case, obs: &mut Obs) -> Result<(), String> {
                 let comp1 = w.comp();
                 obs.label_if(3, !en0);
                 let facts = judge_animator_frame(cur.as_ref(), en0, delta, st0, pos0, &comp0, st1, pos1, &comp1).map_err(|e| format!("op {n} frame({dns} ns): {e}"))?;
+                // bystanders: idle ones never change, the running one keeps running
+                for e in &idle {
+                    let a = w.app.world.get::<Animator<A>>(*e).unwrap();
+                    if !w.app.world.get::<A>(*e).unwrap().same(&by_vals) || a.timeline_position != Duration::ZERO {
+                        return Err(format!("op {n}: an idle bystander entity was modified"));
+                    }
+                }
+                if let Some(e) = runner_up {
+                    let a = w.app.world.get::<Animator<A>>(e).unwrap();
+                    if a.state() == AnimationState::None {
+                        return Err(format!("op {n}: a second entity's animator (spawned later, infinite timeline) never left state None"));
+                    }
+                }
+                let events: Vec<(Entity, AnimationState)> = events.into_iter().filter(|(e, _)| *e == entity).collect();
                 // events: exactly one iff the state changed, carrying the state at the end of the frame
                 let want_events: Vec<(Entity, AnimationState)> = if st1 != st0 { vec![(entity, st1)] } else { vec![] };
                 if events != want_events {
